@@ -7,7 +7,12 @@ value, NaN -- "poison": a NaN read anywhere propagates) go through the real code
   distance   calculate_pairwise_distance_matrix_on_predictions(thetas, MSEDistance(), screen)
   scores     score_chunk with GaussianDBALScorer and RandomScorer (same seeded generator), several n_chunks / batches
   selection  ChunkedScoresHolder.concat + select_next_plate
-  CLI        train_model.main() on saved files (a few pairs)
+  CLI        the first pairs (negative / NaN / mixed poison) also go through FILES and the command line mains:
+             train_model -> calculate_distance_matrix -> calculate_scores (2 chunks, optional batch) -> select_next_plate
+  direct     add_observations handed a selection directly (observed rows only / observed + one masked row / masked rows
+             only / empty / the partially observed Screen object): same outcome on both screens of the pair, refusal
+             whenever a masked row is included, exactly the selected rows recorded otherwise
+  build      constructing the poisoned screen itself must succeed (a validation that reads behind the mask is a violation)
 Oracles (implementation only): every output identical within a pair; the recorded training tuples are exactly the
 observed rows the model documents using (all observed rows for SparseDrugCombo, observed rows without a control
 treatment for SparseDrugComboInteraction), once each, in order, with y = logit(clip(float32(obs), .01, .99)) resp.
@@ -32,7 +37,8 @@ common.use_repo_sources()
 RULE = ("arity-2 screens with 1-2 samples, 2-4 treatments, 2-5 plates; plate 0 (always observed) holds every single-agent row so the "
         "interaction model can predict everywhere, the other plates hold combinations, repeated conditions and extra singles and are observed "
         "at random (at least one masked); observed values from (0,1) plus 0, 1 and >1; masked values replaced by 0 / 1 / 0.37 / -2.5 / NaN "
-        "(one uniform poison per variant plus a mixed one). Non-trivial: >=1 masked row, >=2 observed combination rows, >=1 observed "
+        "(one uniform poison per variant plus a mixed one); the first pairs (negative, NaN, mixed) also run the four command line programs on saved files; "
+        "every pair also hands random selection vectors (observed only, observed + masked, masked only, empty, whole screen) directly to add_observations. Non-trivial: >=1 masked row, >=2 observed combination rows, >=1 observed "
         "single-agent row, and the pair differs in at least one masked value that is NaN or negative.")
 
 POISONS = [("zero", 0.0), ("one", 1.0), ("finite", 0.37), ("negative", -2.5), ("nan", float("nan"))]
@@ -161,13 +167,13 @@ def transform(kind, obs):
     return logit(a)
 
 
-def expected_training(kind, scr):
-    """the documented training set, computed from the screen's public arrays"""
+def expected_training(kind, scr, sel=None):
+    """the documented training set, computed from the screen's public arrays (`sel`: only these rows were handed over)"""
     mask = [bool(x) for x in scr.observation_mask]
     obs = [float(x) for x in scr.observations]
     sids = [int(x) for x in scr.sample_ids]
     tids = [[int(y) for y in r] for r in np.asarray(scr.treatment_ids)]
-    rows = [i for i in range(len(mask)) if mask[i]]
+    rows = [i for i in range(len(mask)) if mask[i] and (sel is None or sel[i])]
     if kind == "interaction":
         use = [i for i in rows if -1 not in tids[i]]
     else:
@@ -274,25 +280,59 @@ def first_diff(a, b):
     return "value"
 
 
-def run_cli_train(env, scr, kind, seed):
-    from batchie.cli import train_model
-    from batchie.core import ThetaHolder
-    data = os.path.join(env, "d_%d.h5" % run_cli_train.k)
-    out = os.path.join(env, "t_%d.h5" % run_cli_train.k)
-    run_cli_train.k += 1
-    scr.save_h5(data)
-    cls = [c for k, _, c in MODELS if k == kind][0]
-    argv = ["train_model", "--data", data, "--model", cls, "--model-param", "n_embedding_dimensions=2", "--output", out, "--n-samples", "2",
-            "--n-burnin", "1", "--thin", "1", "--n-chains", "1", "--chain-index", "0", "--seed", str(seed)]
+def _main(mod, argv):
     old = sys.argv
     sys.argv = argv
     try:
-        train_model.main()
+        mod.main()
     finally:
         sys.argv = old
         quiet()
-    th = ThetaHolder(n_thetas=2).load_h5(out)
-    return theta_canon(th)
+
+
+def run_cli_train(env, scr, kind, seed, batch=()):
+    """the retrospective-simulation path on FILES: train_model -> calculate_distance_matrix -> calculate_scores (2 chunks)
+    -> select_next_plate, every step through its command line main(); returns every output, exact"""
+    from batchie.cli import train_model, calculate_distance_matrix, calculate_scores, select_next_plate as snp
+    from batchie.core import ThetaHolder
+    from batchie.distance_calculation import ChunkedDistanceMatrix
+    from batchie.scoring.main import ChunkedScoresHolder
+    k = run_cli_train.k
+    run_cli_train.k += 1
+    data = os.path.join(env, "d_%d.h5" % k)
+    out = os.path.join(env, "t_%d.h5" % k)
+    scr.save_h5(data)
+    cls = [c for kk, _, c in MODELS if kk == kind][0]
+    _main(train_model, ["train_model", "--data", data, "--model", cls, "--model-param", "n_embedding_dimensions=2", "--output", out, "--n-samples", "3",
+                        "--n-burnin", "1", "--thin", "1", "--n-chains", "1", "--chain-index", "0", "--seed", str(seed)])
+    th = ThetaHolder(n_thetas=3).load_h5(out)
+    res = {"thetas": theta_canon(th)}
+    try:
+        dmf = os.path.join(env, "dm_%d.h5" % k)
+        _main(calculate_distance_matrix, ["calculate_distance_matrix", "--data", data, "--thetas", out, "--distance-metric", "MSEDistance",
+                                          "--n-chunks", "1", "--chunk-index", "0", "--output", dmf])
+        res["distance"] = canon(ChunkedDistanceMatrix.load(dmf).to_dense())
+        sfs = []
+        for idx in range(2):
+            sf = os.path.join(env, "s_%d_%d.h5" % (k, idx))
+            argv = ["calculate_scores", "--scorer", "GaussianDBALScorer", "--data", data, "--thetas", out, "--distance-matrix", dmf,
+                    "--n-chunks", "2", "--chunk-index", str(idx), "--output", sf, "--seed", "3"]
+            if batch:
+                argv += ["--batch-plate-ids"] + [str(b) for b in batch]
+            _main(calculate_scores, argv)
+            h = ChunkedScoresHolder.load_h5(sf)
+            res["scores%d" % idx] = [[int(x) for x in h.plate_ids], fbits(h.scores)]
+            sfs.append(sf)
+        selp = os.path.join(env, "sel_%d.txt" % k)
+        argv = ["select_next_plate", "--data", data, "--scores"] + sfs + ["--output", selp]
+        if batch:
+            argv += ["--batch-plate-id"] + [str(b) for b in batch]
+        _main(snp, argv)
+        with open(selp) as f:
+            res["selected"] = f.read()
+    except Exception as e:   # noqa: BLE001  (e.g. the interaction model cannot predict a treatment without single-agent data)
+        res["downstream_error"] = type(e).__name__
+    return res
 
 
 run_cli_train.k = 0
@@ -303,7 +343,14 @@ def one_pair(ctx, res, env, case, lines, expect_cb, heavy=True, cli=False):
     rawA = case["raw"]
     prng = ctx.subrng("c04-poison", case["seed"])
     rawB = poisoned(rawA, prng, case["poison"])
-    scrA, scrB = S.build(rawA), S.build(rawB)
+    scrA = S.build(rawA)
+    try:
+        scrB = S.build(rawB)
+    except Exception as e:   # noqa: BLE001
+        res.evaluations += 1
+        res.fail("a screen that differs from an accepted one only behind the mask is refused", dict(case), "%s: %s" % (type(e).__name__, e),
+                 "masked values have no influence: the screen is accepted like its twin", signature="C04:masked-value-refused")
+        return
     n_masked = sum(1 for m in rawA["mask"] if not m)
     for kind in case.get("models", ["combo", "interaction"]):
         res.evaluations += 1
@@ -366,17 +413,25 @@ def one_pair(ctx, res, env, case, lines, expect_cb, heavy=True, cli=False):
             res.fail("sampling raised", c, "%s: %s" % (type(e).__name__, e), "sampling succeeds", signature="C04:sample-raises:" + kind)
         if cli:
             try:
-                ca = run_cli_train(env, scrA, kind, 5)
-                cb = run_cli_train(env, scrB, kind, 5)
-                res.count("cli.train_model")
+                pl_ = sorted(set(int(x) for x in scrA.plate_ids))
+                un_ = [p for p in pl_ if not scrA.get_plate(p).is_observed]
+                cbatch = un_[:1] if (len(un_) >= 2 and case["seed"] % 2 == 1) else []
+                ca = run_cli_train(env, scrA, kind, 5, cbatch)
+                cb = run_cli_train(env, scrB, kind, 5, cbatch)
+                res.count("cli.chain.%s" % case["poison"])
+                if "downstream_error" in ca or "downstream_error" in cb:
+                    res.count("cli.chain.downstream-error.%s" % kind)
                 if ca != cb:
-                    res.fail("train_model CLI output differs between screens that differ only behind the mask", dict(c, via="cli"), "thetas differ",
+                    res.fail("command line chain (train_model / calculate_distance_matrix / calculate_scores / select_next_plate) gives different "
+                             "output for screen files that differ only behind the mask", dict(c, via="cli"),
+                             {"differs_in": first_diff(ca, cb), "A": str(ca.get(first_diff(ca, cb)))[:300], "B": str(cb.get(first_diff(ca, cb)))[:300]},
                              "identical", signature="C04:cli-interference:" + kind)
             except Exception as e:   # noqa: BLE001
-                res.fail("train_model CLI raised on a partially observed screen", dict(c, via="cli"), "%s: %s" % (type(e).__name__, e),
-                         "trains on the observed subset", signature="C04:cli-raises:" + kind)
+                res.fail("train_model CLI raised on a partially observed screen file", dict(c, via="cli"), "%s: %s" % (type(e).__name__, e),
+                         "trains on the observed subset whatever is stored behind the mask", signature="C04:cli-raises:" + kind)
     # ---- refusals and the private entry point, once per pair
     refusals(ctx, res, case, rawA, rawB, scrA, lines, expect_cb)
+    direct_views(ctx, res, case, rawA, rawB, scrA, scrB, lines, expect_cb)
     if n_masked and case["poison"] in ("nan", "negative", "mixed"):
         exp, use = expected_training("interaction", scrA)
         singles = sum(1 for t in np.asarray(scrA.treatment_ids)[np.asarray(scrA.observation_mask)] if list(t).count(-1) == 1)
@@ -436,10 +491,17 @@ def refusals(ctx, res, case, rawA, rawB, scrA, lines, expect_cb):
                 pos = case["seed"] % n          # anywhere, also on a single-agent row
             obs[pos] = bad
             full["obs"] = obs
-            sf = S.build(full)
-            m3 = cls(experiment_space=ExperimentSpace.from_screen(sf), n_embedding_dimensions=2)
             res.evaluations += 1
             cc = dict(c, check="bad-value", bad=bad_name, full=full)
+            try:
+                sf = S.build(full)
+            except ValueError as e:
+                # refused even earlier (by the Screen itself): fine for the property, but not what the model describes
+                res.count("refusal.at-construction")
+                lines.append("add %s %s %s" % (kind, S.sel_tok([True] * n), S.raw_to_tokens(full)))
+                expect_cb.append((kind, cc, "parent-" + S.err_tok(e), "C04:add-bad-value:" + kind))
+                continue
+            m3 = cls(experiment_space=ExperimentSpace.from_screen(sf), n_embedding_dimensions=2)
             try:
                 m3.add_observations(sf)
                 out3 = record(kind, m3)
@@ -454,6 +516,63 @@ def refusals(ctx, res, case, rawA, rawB, scrA, lines, expect_cb):
             lines.append("add %s %s %s" % (kind, S.sel_tok([True] * n), S.raw_to_tokens(full)))
             expect_cb.append((kind, cc, out3, "C04:add-bad-value:" + kind))
             res.count("refusal.%s.%s" % (kind, bad_name))
+
+
+def direct_views(ctx, res, case, rawA, rawB, scrA, scrB, lines, expect_cb):
+    """data handed DIRECTLY to add_observations (not through subset_observed): for several selection vectors the outcome must be
+    the same on both screens of the pair; selections of observed rows only are accepted and train on exactly those rows, any
+    selection containing a masked row (and the partially observed Screen object itself) is refused with ValueError"""
+    from batchie.data import ExperimentSpace
+    n = len(rawA["snames"])
+    mask = [bool(x) for x in rawA["mask"]]
+    obs_rows = [i for i in range(n) if mask[i]]
+    msk_rows = [i for i in range(n) if not mask[i]]
+    rng = ctx.subrng("c04-views", case["seed"])
+    sels = []
+    if obs_rows:
+        k = rng.randint(1, len(obs_rows))
+        part = set(rng.sample(obs_rows, k))
+        sels.append(("observed-part", [i in part for i in range(n)]))
+        if msk_rows:
+            part2 = set(part) | {rng.choice(msk_rows)}
+            sels.append(("observed+1masked", [i in part2 for i in range(n)]))
+    if msk_rows:
+        part3 = set(rng.sample(msk_rows, rng.randint(1, len(msk_rows))))
+        sels.append(("masked-only", [i in part3 for i in range(n)]))
+    sels.append(("empty", [False] * n))
+    sels.append(("whole-screen-object", None))
+    for kind in ("combo", "interaction"):
+        cls = get_model_cls(kind)
+        for name, sel in sels:
+            c = dict(case, model=kind, check="direct:" + name, sel=sel)
+            outs = []
+            for tag, scr in (("A", scrA), ("B", scrB)):
+                m = cls(experiment_space=ExperimentSpace.from_screen(scr), n_embedding_dimensions=2)
+                try:
+                    m.add_observations(scr if sel is None else scr.subset(np.array(sel, dtype=bool)))
+                    outs.append(record(kind, m))
+                except Exception as e:   # noqa: BLE001
+                    outs.append(S.err_tok(e))
+            res.evaluations += 1
+            res.count("direct.%s" % name)
+            ca = [o if isinstance(o, str) else rec_canon(o) for o in outs]
+            if ca[0] != ca[1]:
+                res.fail("add_observations on the same selection gives different results for screens that differ only behind the mask", c,
+                         {"A": ca[0], "B": ca[1]}, "identical", signature="C04:direct-interference:" + kind)
+            has_masked = (sel is None and bool(msk_rows)) or (sel is not None and any(sel[i] for i in msk_rows))
+            if has_masked:
+                if ca[0] != "err:ValueError":
+                    res.fail("add_observations accepted data that still contains masked rows", c, ca[0] if isinstance(ca[0], str) else "accepted, n_obs=%d" % ca[0]["n_obs"],
+                             "ValueError", signature="C04:accepts-masked:" + kind)
+            elif sel is not None:
+                exp, _ = expected_training(kind, scrA, sel)
+                if ca[0] != exp:
+                    res.fail("add_observations on observed rows only did not record exactly those rows once each", c,
+                             ca[0], exp, signature="C04:trained-rows:" + kind)
+            if sel is not None:
+                for tag, raw, out in (("A", rawA, outs[0]), ("B", rawB, outs[1])):
+                    lines.append("add %s %s %s" % (kind, S.sel_tok(sel), S.raw_to_tokens(raw)))
+                    expect_cb.append((kind, dict(c, screen=tag), out, "C04:add-direct:" + kind))
 
 
 def flush(ctx, res, lines, expect_cb):
@@ -498,7 +617,7 @@ def run(ctx, res):
         kinds = [p[0] for p in POISONS] + ["mixed"]
         for t in range(n_pairs):
             raw = gen_base(rng, big=(ctx.tier != "quick"))
-            poison = kinds[t % len(kinds)]
+            poison = kinds[(t + 3) % len(kinds)]
             case = {"raw": raw, "poison": poison, "seed": t, "ncs": [1, 2] if ctx.tier == "quick" else [1, 2, 3, 5]}
             heavy = True
             one_pair(ctx, res, env, case, lines, expect_cb, heavy=heavy, cli=(t < n_cli))
